@@ -406,6 +406,11 @@ class Ctx:
     def unreproducible(self, what):
         """A deviation that did not reproduce: never a violation; exit 2 unless a confirmed one exists."""
         log("deviation not reproduced on re-execution:", what[:400])
+        if re.search(r"hang|hung|watchdog|process-stuck|never returns", what):
+            # a watchdog that expired once while the same case then ran to its end: a slow machine, not a stuck call
+            # (a call that never returns does not return on re-execution either)
+            self.notes.append("watchdog expiry not reproduced (load): " + what[:300])
+            return
         self.unreproduced.append(what[:400])
 
     def finish(self, level="model_checking"):
